@@ -77,9 +77,9 @@ def predict(scopes, M):
             kw = M[n].get("rkw") == "1" if conv == "snake" else (M[n].get("rckw") == "1" if conv == "camel" else False)
             if kw:
                 low = n.lower()
-                cls = "rust-ident-keyword-gen" if low == "gen" and n == low else \
-                      ("rust-ident-keyword-uppercase" if n != low else
-                       ("rust-camel-keyword-self" if conv == "camel" else "rust-ident-keyword-other"))
+                cls = "rust-camel-keyword-self" if conv == "camel" else \
+                      ("rust-ident-keyword-gen" if low == "gen" and n == low else
+                       ("rust-ident-keyword-uppercase" if n != low else "rust-ident-keyword-other"))
                 R.append({"reason": cls, "ident": M[n][key], "names": [n], "scope": s["owner"]})
         for ident, ns in ic.dup_groups([(n, M[n][key]) for n in names]).items():
             modcase = len({x.lower() for x in ns}) > 1
